@@ -492,3 +492,174 @@ Proof.
   intros Hs Hst. rewrite avs_unfold, fold_move_kind, (avs_pre_kind p c e _ Hs).
   now rewrite Hst, Nat.eqb_refl.
 Qed.
+
+(** ** A.3 one step keeps the plan acyclic and loop-free *)
+Definition avs_rank (rank : nat -> nat) (c n : nat) (x : nat) : nat :=
+  if x =? lit_id c then 0
+  else if x =? read_id c then 3 * rank n + 2
+  else if x =? write_id c then 3 * rank n + 1
+  else 3 * rank x.
+
+Lemma avs_rank_old rank c n x : x < c -> avs_rank rank c n x = 3 * rank x.
+Proof.
+  intros H. unfold avs_rank, lit_id, read_id, write_id.
+  replace (x =? c) with false by (symmetry; apply Nat.eqb_neq; lia).
+  replace (x =? S c) with false by (symmetry; apply Nat.eqb_neq; lia).
+  replace (x =? S (S c)) with false by (symmetry; apply Nat.eqb_neq; lia).
+  reflexivity.
+Qed.
+Lemma avs_rank_lit rank c n : avs_rank rank c n (lit_id c) = 0.
+Proof. unfold avs_rank. now rewrite Nat.eqb_refl. Qed.
+Lemma avs_rank_read rank c n : avs_rank rank c n (read_id c) = 3 * rank n + 2.
+Proof.
+  unfold avs_rank, lit_id, read_id.
+  replace (S c =? c) with false by (symmetry; apply Nat.eqb_neq; lia). now rewrite Nat.eqb_refl.
+Qed.
+Lemma avs_rank_write rank c n : avs_rank rank c n (write_id c) = 3 * rank n + 1.
+Proof.
+  unfold avs_rank, lit_id, read_id, write_id.
+  replace (S (S c) =? c) with false by (symmetry; apply Nat.eqb_neq; lia).
+  replace (S (S c) =? S c) with false by (symmetry; apply Nat.eqb_neq; lia). now rewrite Nat.eqb_refl.
+Qed.
+
+Lemma avs_rank_ok p c e rank x :
+  sctx p c e -> (forall a b, edge (to_graph p) a b -> rank a < rank b) ->
+  avs_edge p c e x -> avs_rank rank c (enode e) (esrc x) < avs_rank rank c (enode e) (edst x).
+Proof.
+  intros [Hwf [Hc Hn]] Hr Hx. pose proof (Hc _ Hn) as Hnc.
+  assert (Hlow : forall y, In y (pedges p) -> esrc y < c /\ edst y < c /\ rank (esrc y) < rank (edst y)).
+  { intros y Hy. destruct (edge_lt p c y Hwf Hc Hy) as [H1 H2]. repeat split; try assumption.
+    apply Hr. now apply pedge_of_In. }
+  destruct Hx as [x Hx Hsrc | | Hst Hso | Hst Hso | Hst | pr Hst Hso Hpr | s k Hin Hk | s Hst Hin];
+    cbn [esrc edst mke].
+  - destruct (Hlow x Hx) as [H1 [H2 H3]]. rewrite !avs_rank_old by assumption. lia.
+  - rewrite avs_rank_lit, avs_rank_read. lia.
+  - rewrite avs_rank_lit, avs_rank_write. lia.
+  - rewrite avs_rank_old, avs_rank_write by assumption. lia.
+  - rewrite avs_rank_read, avs_rank_write. lia.
+  - pose proof (Hr _ _ Hpr) as Hlt. apply (to_graph_wf p Hwf) in Hpr. destruct Hpr as [Hpr _].
+    apply Hc in Hpr. rewrite avs_rank_old, avs_rank_write by assumption. lia.
+  - destruct (Hlow _ Hin) as [H1 [H2 H3]]. cbn in H1, H2, H3.
+    rewrite avs_rank_read, avs_rank_old by assumption. lia.
+  - destruct (Hlow _ Hin) as [H1 [H2 H3]]. cbn in H1, H2, H3.
+    rewrite avs_rank_write, avs_rank_old by assumption. lia.
+Qed.
+
+Theorem add_value_store_acyclic p c e :
+  sctx p c e -> acyclic (to_graph p) -> acyclic (to_graph (add_value_store p c e)).
+Proof.
+  intros Hs [rank Hr]. exists (avs_rank rank c (enode e)). intros a b Hab.
+  apply pedge_iff in Hab. destruct Hab as [k Hin]. apply (add_value_store_edges p c e _ Hs) in Hin.
+  apply (avs_rank_ok p c e rank _ Hs Hr) in Hin. exact Hin.
+Qed.
+
+(** * Part B: the whole transformation [add_all p c es] *)
+
+(** the setting of every theorem below: [p] well formed, every node below the id counter [c] (so every id
+    created is fresh), the registry entries [es] are pairwise distinct nodes of the plan *)
+Definition tctx (p : pgraph) (c : nat) (es : list entry) : Prop :=
+  pgraph_wf p /\ (forall n, In n (pnodes p) -> n < c) /\
+  NoDup (map enode es) /\ (forall e, In e es -> In (enode e) (pnodes p)).
+
+Lemma tctx_head p c e es : tctx p c (e :: es) -> sctx p c e.
+Proof. intros [Hwf [Hc [_ Hn]]]. exact (conj Hwf (conj Hc (Hn e (or_introl eq_refl)))). Qed.
+
+Lemma tctx_step p c e es : tctx p c (e :: es) -> tctx (add_value_store p c e) (next_id c e) es.
+Proof.
+  intros Ht. pose proof (tctx_head _ _ _ _ Ht) as Hs. destruct Ht as [Hwf [Hc [Hnd Hn]]].
+  split; [|split; [|split]].
+  - now apply add_value_store_wf.
+  - intros n. now apply add_value_store_bound.
+  - cbn in Hnd. now inversion Hnd.
+  - intros e' He'. apply (add_value_store_nodes_In p c e _ Hs). left. apply Hn. now right.
+Qed.
+
+Lemma tctx_reg_lt p c es n : tctx p c es -> In n (map enode es) -> n < c.
+Proof.
+  intros [_ [Hc [_ Hn]]] Hin. apply in_map_iff in Hin. destruct Hin as [e [<- He]]. apply Hc. now apply Hn.
+Qed.
+
+Lemma tctx_head_notin p c e es : tctx p c (e :: es) -> ~ In (enode e) (map enode es).
+Proof. intros [_ [_ [Hnd _]]]. cbn in Hnd. now inversion Hnd. Qed.
+
+Lemma entry_ids_In c es : forall e ce, In (e, ce) (entry_ids c es) -> In e es /\ c <= ce.
+Proof.
+  revert c. induction es as [|e0 es IH]; intros c e ce H; cbn in H; [contradiction|].
+  destruct H as [H | H].
+  - inversion H; subst. split; [now left | lia].
+  - apply IH in H. destruct H as [H1 H2]. split; [now right|]. pose proof (next_id_ge c e0). lia.
+Qed.
+
+Lemma entry_ids_complete c es : forall e, In e es -> exists ce, In (e, ce) (entry_ids c es).
+Proof.
+  revert c. induction es as [|e0 es IH]; intros c e H; [contradiction|]. cbn.
+  destruct H as [-> | H]; [exists c; now left|].
+  destruct (IH (next_id c e0) e H) as [ce Hce]. exists ce. now right.
+Qed.
+
+(** ** the stability facts: a later step only removes edges leaving its own registered node, and every
+    edge it creates has a fresh endpoint *)
+Lemma add_all_keeps x : forall es p c,
+  tctx p c es -> In x (pedges p) -> ~ In (esrc x) (map enode es) -> In x (pedges (add_all p c es)).
+Proof.
+  induction es as [|e es IH]; intros p c Ht Hx Hno; cbn [add_all]; [assumption|].
+  apply IH.
+  - now apply tctx_step.
+  - apply (add_value_store_edges p c e x (tctx_head _ _ _ _ Ht)). apply AE_old; [assumption|].
+    intros H. apply Hno. cbn. now left.
+  - intros H. apply Hno. cbn. now right.
+Qed.
+
+Lemma avs_edge_new_high p c e x :
+  avs_edge p c e x -> In x (pedges p) \/ c <= esrc x \/ c <= edst x.
+Proof.
+  intros H. destruct H; cbn [esrc edst mke]; unfold lit_id, read_id, write_id; auto; right; lia.
+Qed.
+
+Lemma add_all_no_new_low x : forall es p c,
+  tctx p c es -> ~ In x (pedges p) -> esrc x < c -> edst x < c -> ~ In x (pedges (add_all p c es)).
+Proof.
+  induction es as [|e es IH]; intros p c Ht Hx Hs Hd; cbn [add_all]; [assumption|].
+  pose proof (next_id_ge c e) as Hge. apply IH; [now apply tctx_step | | lia | lia].
+  intros H. apply (add_value_store_edges p c e x (tctx_head _ _ _ _ Ht)) in H.
+  apply avs_edge_new_high in H. destruct H as [H | [H | H]]; [contradiction | lia | lia].
+Qed.
+
+(** every edge leaving a registered node towards an old node is gone at the end *)
+Lemma add_all_removes x : forall es p c,
+  tctx p c es -> In (esrc x) (map enode es) -> edst x < c -> ~ In x (pedges (add_all p c es)).
+Proof.
+  induction es as [|e es IH]; intros p c Ht Hreg Hd; cbn [add_all]; [contradiction|].
+  pose proof (next_id_ge c e) as Hge. pose proof (tctx_step _ _ _ _ Ht) as Ht'.
+  cbn in Hreg. destruct Hreg as [Hreg | Hreg].
+  - assert (Hlt : enode e < c) by (apply (tctx_reg_lt p c (e :: es)); [assumption | now left]).
+    apply add_all_no_new_low; [assumption | | lia | lia].
+    intros H. apply (add_value_store_edges p c e x (tctx_head _ _ _ _ Ht)) in H.
+    destruct H; cbn [esrc edst mke] in *; unfold lit_id, read_id, write_id in *; lia.
+  - apply IH; [assumption | assumption | lia].
+Qed.
+
+(** the workhorse: a property [phi] of the current plan that survives the steps of the other entries and
+    makes the step of entry [e] create the edge [x], whose source is a created id or [e]'s own node *)
+Lemma add_all_at (phi : pgraph -> Prop) x e ce : forall es p c,
+  tctx p c es -> In (e, ce) (entry_ids c es) -> phi p ->
+  (forall p' c' e', sctx p' c' e' -> In e' es -> enode e' <> enode e -> phi p' ->
+                    phi (add_value_store p' c' e')) ->
+  (forall p', sctx p' ce e -> phi p' -> In x (pedges (add_value_store p' ce e))) ->
+  ce <= esrc x \/ esrc x = enode e ->
+  In x (pedges (add_all p c es)).
+Proof.
+  induction es as [|e0 es IH]; intros p c Ht Hin Hphi Hpres Hat Hsrc; cbn [add_all entry_ids] in *;
+    [contradiction|].
+  pose proof (tctx_head _ _ _ _ Ht) as Hs. pose proof (tctx_step _ _ _ _ Ht) as Ht'.
+  destruct Hin as [Heq | Hin].
+  - inversion Heq; subst e0 ce. apply add_all_keeps; [assumption | now apply Hat |].
+    intros Hreg. destruct Hsrc as [Hge | Heq'].
+    + assert (Hlt : esrc x < c) by (apply (tctx_reg_lt p c (e :: es) _ Ht); cbn; now right). lia.
+    + rewrite Heq' in Hreg. now apply (tctx_head_notin _ _ _ _ Ht).
+  - apply (IH _ (next_id c e0)); try assumption.
+    + apply Hpres; [assumption | now left | | assumption].
+      intros Heq. apply entry_ids_In in Hin. destruct Hin as [Hin _].
+      apply (tctx_head_notin _ _ _ _ Ht). rewrite Heq. now apply in_map.
+    + intros p' c' e' Hs' He'. apply Hpres; [assumption | now right].
+Qed.
